@@ -1,0 +1,93 @@
+//go:build verif
+
+package signed256
+
+// Machine-checked contracts (govc, see /verif/DESIGN.md). Comment-only file.
+//
+// C05. Spec: an Int denotes val(z) = (neg ? -1 : 1) * mag, mag = the four limbs read
+// little-endian; representation invariant norm(z): neg ==> mag != 0. The 33-byte key read
+// as one big-endian number is key(z) = neg ? 2^256-1-mag : 2^256+mag, so unsigned
+// comparison of keys (= bytes.Compare on equal-length keys) is numeric comparison.
+
+//@ fileprops C05
+
+//@ pure func keyOf(neg bool, mag wide) wide = ite(neg, 115792089237316195423570985008687907853269984665640564039457584007913129639935 - mag, 115792089237316195423570985008687907853269984665640564039457584007913129639936 + mag)
+//@ pure func valOf(neg bool, mag wide) wide = ite(neg, 0 - mag, mag)
+//@ pure func hiMask(i wide) wide = 115792089237316195423570985008687907853269984665640564039457584007913129639935 - (115792089237316195423570985008687907853269984665640564039457584007913129639935 >> (8 * i))
+
+//@ func (*Int).FillBytes
+//@   property C05
+//@   opt wide=272
+//@   requires len(dst) >= 33
+//@   loop 1 invariant -1 <= rangeindex && rangeindex <= 31
+//@   loop 1 invariant beval(dst, 0, 1) == 0 && beval(dst, 1, 32) == (leval(z.mag, 0, 4) ^ hiMask(wide(rangeindex) + 1))
+//@   ensures [key_is_sign_byte_then_magnitude_inverted_for_negatives] beval(dst, 0, 33) == keyOf(z.neg, leval(z.mag, 0, 4))
+
+//@ func (*Int).EncodeBytes
+//@   property C05
+//@   opt wide=272
+//@   ensures [key_of_value] beval(result, 0, 33) == keyOf(z.neg, leval(z.mag, 0, 4))
+
+// DecodeBytes accepts exactly 33-byte inputs with sign byte 0 or 1, and returns the
+// normalised Int whose key is the input (the only other spelling of zero, 00 ff..ff, is
+// accepted and normalised to +0).
+//@ func DecodeBytes
+//@   property C05
+//@   opt wide=272
+//@   loop 1 invariant -1 <= rangeindex && rangeindex <= 31 && z.neg == (b[0] == 0) && len(b) == 33
+//@   loop 1 invariant beval(b, 0, 33) == old(beval(b, 0, 33))
+//@   loop 1 invariant beval(raw, 0, 32) == (old(beval(b, 1, 32)) ^ hiMask(wide(rangeindex) + 1))
+//@   ensures [accepts_exactly_well_formed_keys] (err == nil) == (len(b) == 33 && (b[0] == 0 || b[0] == 1))
+//@   ensures [normalised] err == nil ==> (res0.neg ==> leval(res0.mag, 0, 4) != 0)
+//@   ensures [inverse_of_encoding] err == nil ==> valOf(res0.neg, leval(res0.mag, 0, 4)) == ite(b[0] == 0, 0 - (115792089237316195423570985008687907853269984665640564039457584007913129639935 - beval(b, 1, 32)), beval(b, 1, 32))
+//@   ensures [key_round_trip] err == nil && !(b[0] == 0 && beval(b, 1, 32) == 115792089237316195423570985008687907853269984665640564039457584007913129639935) ==> keyOf(res0.neg, leval(res0.mag, 0, 4)) == beval(b, 0, 33)
+
+//@ func (*Int).Cmp
+//@   property C05
+//@   opt wide=272
+//@   valid (z.neg ==> leval(z.mag, 0, 4) != 0) && (x.neg ==> leval(x.mag, 0, 4) != 0)
+//@   ensures [sign_of_difference] result == ite(valOf(z.neg, leval(z.mag, 0, 4)) < valOf(x.neg, leval(x.mag, 0, 4)), -1, ite(valOf(z.neg, leval(z.mag, 0, 4)) == valOf(x.neg, leval(x.mag, 0, 4)), 0, 1))
+
+// L-order: for normalised values, unsigned comparison of the 264-bit keys is numeric
+// comparison of the values; distinct values have distinct keys. (QF_BV, 272 bits.)
+//@ lemma key_order_is_numeric_order: forall n1 bool :: forall m1 wide :: forall n2 bool :: forall m2 wide :: 0 <= m1 && m1 <= 115792089237316195423570985008687907853269984665640564039457584007913129639935 && 0 <= m2 && m2 <= 115792089237316195423570985008687907853269984665640564039457584007913129639935 && (n1 ==> m1 != 0) && (n2 ==> m2 != 0) ==> ((keyOf(n1, m1) < keyOf(n2, m2)) == (valOf(n1, m1) < valOf(n2, m2))) && ((keyOf(n1, m1) == keyOf(n2, m2)) == (n1 == n2 && m1 == m2))
+
+// ---- decimal reading: accepts exactly [+-]?digits with |value| < 2^256
+
+//@ func (*Int).SetFromDecimal
+//@   property C05
+//@   opt wide=272
+//@   ensures [accepts_exactly_optionally_signed_digits_in_range] (err == nil) == (len(s) > 0 && digitsFit(ite(s[0] == 43 || s[0] == 45, s[1:], s)))
+//@   ensures [value] err == nil ==> valOf(z.neg, leval(z.mag, 0, 4)) == ite(s[0] == 45, 0 - decVal(s[1:]), decVal(ite(s[0] == 43, s[1:], s)))
+//@   ensures [normalised] err == nil ==> (z.neg ==> leval(z.mag, 0, 4) != 0)
+
+//@ func ParseDecimal
+//@   property C05
+//@   opt wide=272
+//@   ensures [accepts_exactly_optionally_signed_digits_in_range] (err == nil) == (len(s) > 0 && digitsFit(ite(s[0] == 43 || s[0] == 45, s[1:], s)))
+//@   ensures [value] err == nil ==> valOf(res0.neg, leval(res0.mag, 0, 4)) == ite(s[0] == 45, 0 - decVal(s[1:]), decVal(ite(s[0] == 43, s[1:], s)))
+//@   ensures [normalised] err == nil ==> (res0.neg ==> leval(res0.mag, 0, 4) != 0)
+
+// ParseNormalizedDecimal reads digits only (the sign comes separately): it accepts exactly
+// the digit strings in range and agrees with SetFromDecimal on the value.
+//@ func ParseNormalizedDecimal
+//@   property C05
+//@   opt wide=272
+//@   loop 1 invariant 0 <= rangepos && rangepos <= len(digits) && (forall k int :: 0 <= k && k < rangepos ==> 48 <= digits[k] && digits[k] <= 57)
+//@   ensures [accepts_exactly_digits_in_range] (err == nil) == digitsFit(digits)
+//@   ensures [value] err == nil ==> valOf(res0.neg, leval(res0.mag, 0, 4)) == ite(neg, 0 - decVal(digits), decVal(digits))
+//@   ensures [normalised] err == nil ==> (res0.neg ==> leval(res0.mag, 0, 4) != 0)
+
+//@ func NewInt
+//@   property C05
+//@   opt wide=272
+//@   ensures [value] valOf(result.neg, leval(result.mag, 0, 4)) == wide(v)
+//@   ensures [normalised] result.neg ==> leval(result.mag, 0, 4) != 0
+//@ func NewUint64
+//@   property C05
+//@   opt wide=272
+//@   ensures [value] !result.neg && leval(result.mag, 0, 4) == wide(v)
+//@ func (*Int).SetUint64
+//@   property C05
+//@   opt wide=272
+//@   ensures [value] !z.neg && leval(z.mag, 0, 4) == wide(v)
